@@ -89,13 +89,13 @@ Definition exit_call (t : table) (p : nat) (st rest : list val) (tr : list tent)
            (exc_edge t false p st (remove_site s tr))
   end.
 
-Definition trans (c : code) (t : table) (fresh : I) (s : state) : option (list state) :=
+Definition trans (v : pyver) (c : code) (t : table) (fresh : I) (s : state) : option (list state) :=
   let p := pc s in let st := stack s in let tr := truth s in
   let next st' := Some [mk (S p) st' tr] in
   let exc := exc_edge t false p st tr in
   if length c <=? p then None else
   match at_ c p with
-  | ICache | IExtArg | INop => next st
+  | ICache | IExtArg | INop | IPrecall => next st
   | IResume => both (next st) exc
   | ILoadConst _ => next (VO :: st)
   | IPop => match st with _ :: r => next r | [] => None end
@@ -120,7 +120,9 @@ Definition trans (c : code) (t : table) (fresh : I) (s : state) : option (list s
   | ISend tgt =>
       match st with
       | _ :: recv :: r =>
-          both (Some [mk (S p) (VO :: recv :: r) tr; mk tgt (VO :: recv :: r) (event recv tr)]) exc
+          (* completion: 3.12 keeps the receiver under the result (END_SEND pops it); 3.11 pops it *)
+          let done := match v with V312 => VO :: recv :: r | V311 => VO :: r end in
+          both (Some [mk (S p) (VO :: recv :: r) tr; mk tgt done (event recv tr)]) exc
       | _ => None
       end
   | IEndSend => match st with v :: _ :: r => next (v :: r) | _ => None end
@@ -131,7 +133,18 @@ Definition trans (c : code) (t : table) (fresh : I) (s : state) : option (list s
       end
   | IYield =>
       match st with
-      | _ :: r => both (next (VO :: r)) (exc_edge t true p (VO :: r) tr)
+      | _ :: r =>
+          match v with
+          | V312 => both (next (VO :: r)) (exc_edge t true p (VO :: r) tr)
+          | V311 =>
+              (* 3.11 has no CLEANUP_THROW: gen.throw() delegates to the awaited object in C; if that
+                 completes, execution continues at the SEND's target with the receiver popped *)
+              both (both (next (VO :: r)) (exc_edge t false p (VO :: r) tr))
+                   (match at_ c (p - 1), r with
+                    | ISend tgt, recv :: r' => Some [mk tgt (VO :: r') (event recv tr)]
+                    | _, _ => Some []
+                    end)
+          end
       | [] => None
       end
   | ICall n =>
@@ -160,7 +173,15 @@ Definition trans (c : code) (t : table) (fresh : I) (s : state) : option (list s
                   both (Some [mk (S p) r tr; mk tgt r tr]) (if raises then exc else Some [])
       | [] => None
       end
-  | IForIter tgt => both (Some [mk (S p) (VO :: st) tr; mk tgt (VO :: st) tr]) exc
+  | IJumpOrPop tgt =>
+      match st with
+      | x :: r => if negb (is_VO x) then None else both (Some [mk (S p) r tr; mk tgt st tr]) exc
+      | [] => None
+      end
+  | IForIter tgt =>
+      (* exhausted: 3.12 jumps to END_FOR with [iter, NULL] still on the stack; 3.11 pops the iterator *)
+      both (Some [mk (S p) (VO :: st) tr;
+                  mk tgt (match v with V312 => VO :: st | V311 => tl st end) tr]) exc
   | IGen pops pushes raises =>
       if (pops <=? length st) && all_VO (firstn pops st)
       then both (next (repeat VO pushes ++ skipn pops st)) (if raises then exc else Some [])
@@ -202,7 +223,7 @@ Definition obs (c : code) (s : state) : list observation :=
       match st with VO :: _ => run_at c p st tr | _ => [] end
   | ISend _                               (* inside the awaited coroutine / iterator *)
   | IBeforeWith _                         (* inside __enter__/__aenter__: not yet listed *)
-  | IForIter _ | ICondJump _ true | IGen _ _ true => run_at c p st tr
+  | IForIter _ | ICondJump _ true | IJumpOrPop _ | IGen _ _ true => run_at c p st tr
   | _ => []
   end.
 
